@@ -98,6 +98,9 @@ try:
 finally:
     sh("git -C /repo checkout -- .")
     sh("git -C /repo clean -fdq")
+    # the runs above rewrote evidence/<id>.json from a patched /repo: put back the committed evidence of the unchanged tree
+    for c in [pid] + extra:
+        sh(f"git -C {V} checkout -- evidence/{c}.json")
 res["caught_by"] = [c for c, r in res["checks"].items() if r["rc"] == 1]
 shutil.copy(f"{src}/patch_rebased.diff", f"{d}/patch.diff")
 if os.path.exists(f"{d}/demo"):
